@@ -115,3 +115,17 @@ package executor
 //@   requires [wf] forall a common.Address :: balOf(a) >= 0
 //@   requires [nonces!init] forall a common.Address :: nonceOf(a) < 18446744073709551615
 //@   requires [data!init] istype(context["contractData"], *ContractRawData) && unbox(context["contractData"], *ContractRawData) != nil && unbox(context["contractData"], *ContractRawData).TransferValue != nil && big(unbox(context["contractData"], *ContractRawData).TransferValue) >= 0
+
+// ---------------------------------------------------------------------------------------------
+// Changing a miner's account (C20): only the account of the stored record changes - every miner's stake, status
+// and registry membership are what they were. The record written back is the STORED one; a record rebuilt from
+// the transaction's JSON carries the sender's choice of status (and a default of "normal"), which would put an
+// aborted miner back among the active proposers and into the total stake.
+//@ func minerChangeAccountExecutor.Execute
+//@   property C20
+//@   requires this != nil && transaction != nil && typeid(this.logger) != 0
+//@   requires [singletons!init] service.MinerManagerImpl != nil
+//@   requires [wf] seqLen(regSeq(common.MinerTypeValidator)) >= 0 && seqLen(regSeq(common.MinerTypeProposer)) >= 0
+//@   ensures [stakes]   ghost(mstake) == old(ghost(mstake))
+//@   ensures [status]   ghost(mstatus) == old(ghost(mstatus))
+//@   ensures [registry] ghost(mrec) == old(ghost(mrec))
